@@ -118,8 +118,8 @@ PROPS["C06"] = {
     ],
     "assumptions": COMMON_ASSUME + ["at most the wsflate.MessageState send extension is attached (an extension whose SetBits errors makes "
                                     "Write spin, DESIGN §7 N1)", "destination honours io.Writer (n == len(p) on success)"],
-    "level_text": "Kernel-checked: history_ok - after ANY sequence of Write / WriteThrough / FlushFragment / Flush from a message boundary the frames sent are whole messages followed by the non-final frames of the message still open (first frame with the configured opcode and the extension's RSV, the rest continuations with RSV 0, exactly the last frame of each message final, final frames from Flush only) and the concatenated payloads followed by what is buffered equal the accepted bytes in order; the byte-level writer refines that frame-level writer operation by operation (flush/flushFrag/writeThrough/write_refines: exact wire bytes incl. the §5.2 header, masking with the drawn key iff client, the fill-flush-through loop of Write for every size relative to the buffer); header-reservation arithmetic across 125/126 and 65535/65536 (no flush can panic); empty flush emits nothing. PARTIAL: ReadFrom, Grow/DisableFlush, SetExtensions/ResetOp inside a history and destination failures are per-operation theorems (C16, C18) + ~14k exact correspondences per run and the independent frame-stream oracle.",
-    "level_note": "Trusted: Lean kernel, the oracle's reading of the property, harness. Theorems so far are single-step; histories by correspondence.",
+    "level_text": "Kernel-checked: history_ok - after ANY sequence of Write / WriteThrough / FlushFragment / Flush from a message boundary the frames sent are whole messages followed by the non-final frames of the message still open (first frame with the configured opcode and the extension's RSV, the rest continuations with RSV 0, exactly the last frame of each message final, final frames from Flush only) and the concatenated payloads followed by what is buffered equal the accepted bytes in order; the byte-level writer refines that frame-level writer operation by operation (flush/flushFrag/writeThrough/write_refines: exact wire bytes incl. the §5.2 header, masking with the drawn key iff client, the fill-flush-through loop of Write for every size relative to the buffer) AND over every history (run_refines / wire_history_ok: after any operation sequence the destination holds exactly the RFC encodings of the frames of history_ok, keys drawn in order; accepted_is_written: every byte handed to Write is accepted); header-reservation arithmetic across 125/126 and 65535/65536 (no flush can panic); empty flush emits nothing. PARTIAL: ReadFrom, Grow/DisableFlush, SetExtensions/ResetOp inside a history and destination failures are per-operation theorems (C16, C18) + ~14k exact correspondences per run and the independent frame-stream oracle.",
+    "level_note": "Trusted: Lean kernel, the oracle's reading of the property, harness. Histories of Write/WriteThrough/FlushFragment/Flush are proved at the byte level; the other operations by per-operation theorems and correspondence.",
 }
 
 READER_TB = [
